@@ -138,6 +138,9 @@ let run_a () =
     times nops (fun () ->
         match next () with
         | "s" -> ASet (parse_layout ())
+        (* a membership snapshot handed to the node's membership watcher: the watcher must give
+           the selector every member, the local node included, under its data centre *)
+        | "w" -> ASet (parse_layout ())
         | "g" -> let lv = level_of (next ()) in AGet (lv, parse_hint ())
         | "x" -> AExp (level_of (next ()))
         | t -> failwith ("bad op " ^ t))
